@@ -218,13 +218,13 @@ pub fn build_cases(cfg: &Cfg) -> Vec<Case> {
             }
             cases.push(Case { name: format!("3 generators with a redundant one #{}", k), pres: Pres { ngens: 3, rels }, k: 5, bf_limit: 2.0e4 });
         }
-        for (name, p) in groupcorpus::hostile_presentations(cfg.seed, cfg.tier.pick(200, 2000)) {
+        for (name, p) in groupcorpus::hostile_presentations(cfg.seed, cfg.tier.pick(200, 5000)) {
             let k = if p.ngens == 3 { 5 } else { cfg.tier.pick(5, 6) };
             cases.push(Case { name, pres: p, k, bf_limit: 2.0e5 });
         }
     }
     // random presentations
-    for (k, p) in groupcorpus::random_presentations(cfg.seed, cfg.tier.pick(400, 4000)).into_iter().enumerate() {
+    for (k, p) in groupcorpus::random_presentations(cfg.seed, cfg.tier.pick(400, 10000)).into_iter().enumerate() {
         let kk = if p.ngens == 2 { cfg.tier.pick(4, 5) } else { 3 };
         cases.push(Case { name: format!("random presentation #{}", k), pres: p, k: kk, bf_limit: 3.0e6 });
     }
